@@ -1228,7 +1228,7 @@ func (m *model) ruleConservation(s *report.Sink) {
 			return
 		}
 		for _, a := range m.arms {
-			if a.entry == b {
+			if a.inside(b) {
 				arm = a.name
 			}
 		}
@@ -1407,6 +1407,11 @@ func (m *model) ruleConservation(s *report.Sink) {
 
 // S26 state literal, S28 emit sites.
 func (m *model) ruleState(s *report.Sink) {
+	m.ruleEmitSites(s)
+	if m.emitCall == nil {
+		s.Unk("S26", "State|construction", m.pos(m.fnLoop.Pos()), "the loop goroutine does not call Emitter.Emit at exactly one site")
+		return
+	}
 	pos := m.ipos(m.emitCall)
 	vals, err := m.stateFields(m.emitCall.Common().Args[0])
 	if err != nil {
@@ -1425,6 +1430,10 @@ func (m *model) ruleState(s *report.Sink) {
 	s.Check(vals["Concurrency"] != nil && m.isConcField(vals["Concurrency"]), "S26", "State.Concurrency <- s.concurrency", pos, "", "Concurrency is not the scheduler's concurrency field")
 	s.Check(m.isIdle(vals["IdleWorkers"], 0), "S26", "State.IdleWorkers <- s.concurrency - ongoing", pos, "directly or via a helper returning p0 - p1 (clamped at 0)", "IdleWorkers is not concurrency minus the number of executing jobs")
 
+}
+
+// S28 emit sites.
+func (m *model) ruleEmitSites(s *report.Sink) {
 	// S28
 	n := 0
 	for _, p := range m.repo.SSA {
